@@ -132,10 +132,11 @@ pub fn scenario_set(tier: Tier, with_loads: bool) -> Vec<Scenario> {
             sets.push(vec![0, 2, 3, hsa - 2, hsa - 1]);
             sets.push(vec![1, 2, 3, 4]);
         }
+        let rich = hsa == 6;
         for addrs in sets {
-            let gaps: Vec<u8> = tier.pick(vec![1], vec![1, 2, 10]);
+            let gaps: Vec<u8> = if rich { tier.pick(vec![1], vec![1, 2, 10]) } else { vec![1] };
             for gap in gaps {
-                let bauds: Vec<usize> = tier.pick(vec![1, 2], vec![0, 1, 2, 3, 4]);
+                let bauds: Vec<usize> = if rich { tier.pick(vec![1, 2], vec![0, 1, 2, 3, 4]) } else { vec![1] };
                 for baud in bauds {
                     let min_slot: u16 = [100, 100, 200, 300, 1000][baud];
                     for slot_bits in [min_slot, min_slot.max(300)] {
@@ -145,9 +146,9 @@ pub fn scenario_set(tier: Tier, with_loads: bool) -> Vec<Scenario> {
                                 continue;
                             }
                         }
-                        let div_patterns: Vec<Vec<i64>> = tier.pick(vec![vec![16], vec![4], vec![16, 4], vec![4, 16]], vec![vec![16], vec![8], vec![4], vec![16, 4], vec![4, 16], vec![8, 4, 16]]);
+                        let div_patterns: Vec<Vec<i64>> = if rich { tier.pick(vec![vec![16], vec![4], vec![16, 4], vec![4, 16]], vec![vec![16], vec![8], vec![4], vec![16, 4], vec![4, 16], vec![8, 4, 16]]) } else { vec![vec![16], vec![4], vec![16, 4]] };
                         for divs in div_patterns {
-                            let phase_patterns: Vec<Vec<i64>> = tier.pick(vec![vec![0, 1, 2]], vec![vec![0], vec![0, 1, 2], vec![2, 0, 1]]);
+                            let phase_patterns: Vec<Vec<i64>> = if rich { tier.pick(vec![vec![0, 1, 2]], vec![vec![0], vec![0, 1, 2], vec![2, 0, 1]]) } else { vec![vec![0, 1, 2]] };
                             for phases in phase_patterns {
                                 // thorough: not the full product for every set
                                 if tier == Tier::Thorough && (gap != 1 || baud != 1) && addrs.len() > 2 && phases.len() == 1 {
@@ -328,7 +329,7 @@ pub fn run_ring(which: Which, tier: Tier) -> ! {
         let k = match tier {
             Tier::Quick => 0,
             Tier::Thorough => {
-                if sc.late.is_empty() && sc.addrs.len() <= 3 && sc.baud == 1 && sc.gap == 1 {
+                if sc.late.is_empty() && sc.addrs.len() <= 3 && sc.baud == 1 && sc.gap == 1 && sc.hsa == 6 && sc.phases.len() == 3 && sc.phases[0] == 0 && matches!(sc.loads[0], Load::None) && sc.loads.len() == 1 && sc.ttr.is_none() && sc.divs != vec![16] && sc.divs != vec![8] {
                     1
                 } else {
                     0
@@ -359,7 +360,7 @@ pub fn run_ring(which: Which, tier: Tier) -> ! {
     if sk > 0 {
         ev.caps_hit.push(format!("time budget {budget_s}s: {sk} of {} scenarios not run", scenarios.len()));
     }
-    ev.bounds = json!({"scenarios": scenarios.len(), "stall_budget": tier.pick("0 everywhere, 1 on selected critical configurations", "1 on all <=3-station 19.2k configurations without late joiner, 0 elsewhere"), "critical_k1": k1});
+    ev.bounds = json!({"scenarios": scenarios.len(), "stall_budget": tier.pick("0 everywhere, 1 on selected critical configurations", "1 on all <=3-station HSA-6 19.2k unloaded configurations with a slow poller, 0 elsewhere"), "critical_k1": k1});
     let outcomes = tally.outcomes.lock().unwrap().clone();
     ev.distinct_outcomes = outcomes.len() as u64;
     ev.extra.insert("outcomes".into(), json!(outcomes));
